@@ -43,6 +43,12 @@ fn has_float(t: &SItem) -> bool {
 /// parse `text` into a fresh state, return EXEC (top first)
 fn parse(text: &str, is: &pushr::push::instructions::InstructionSet) -> Result<(Vec<SItem>, String), String> {
     let mut st = PushState::new();
+    // the state parsed into is not a blank one: it has bindings, some of them spelled like registered
+    // instructions or like literals (parsing does not consult the bindings)
+    for (k, key) in ["INTEGER.+", "a", "foo", "CODE.QUOTE", "NAME.QUOTE", "MyInstruction", "1", "TRUE"].iter().enumerate() {
+        st.name_bindings.insert(key.to_string(), pushr::push::item::Item::int(k as i32));
+    }
+    st.quote_name = text.len() % 2 == 0;
     guarded(|| PushParser::parse_program(&mut st, is, text))?;
     let printed = st.exec_stack.to_string();
     Ok((Snap::of(&st).e, printed))
